@@ -14,7 +14,19 @@
 //!   a chord whose keys are a strict part of a multi-key follow-up chord that is still pending
 //!   ("dy abc" pending, "ab" typed): the earlier text stays, the chord expands as if typed alone;
 //! * a chord activates, SOME of its keys are released, then a longer chord containing it is completed
-//!   in the same hold ("pr" / "pra", "12" / "1234"): only the longer expansion remains.
+//!   in the same hold ("pr" / "pra", "12" / "1234"): only the longer expansion remains;
+//! * a line that has follow-up lines is completed and released, the user types something else (a lone
+//!   tap of a key that is only a part of some chord, a key that is in no chord, several taps, space,
+//!   punctuation, a rolled pair, a different chord), waits (shorter / longer than idle-reactivate-time)
+//!   and presses the keys of a follow-up chord of that line: what was typed in between stays on screen,
+//!   nothing of it is erased, the keys are what they are on their own.
+//!
+//! Modifiers: every family is also driven with lsft, rsft or BOTH shift keys (either press order) held,
+//! the entry family also with altgr. With shift the text is compared exactly, not only ignoring case:
+//! the first character of the expansion is typed under the user's shift (a capital letter), the rest as
+//! configured (all held shift keys lifted, pressed again afterwards); before the user releases them
+//! exactly the held modifiers must be down at the OS. Where the final expansion may re-use the beginning
+//! of the text it replaces (same first character) the comparison ignores case as before.
 //!
 //! Known findings are keyed on the exact structural precondition of the defect of the unchanged tree and,
 //! where the defect's outcome can be stated in one line (#18: zippy resets, keys appear literally;
@@ -334,16 +346,84 @@ enum Held {
     None,
     LShift,
     RShift,
+    /// both shift keys, lsft pressed first
+    BothLR,
+    /// both shift keys, rsft pressed first
+    BothRL,
     AltGr,
 }
 impl Held {
-    fn key(self) -> Option<&'static str> {
+    /// the modifier keys the user holds, in press order
+    fn keys(self) -> &'static [&'static str] {
         match self {
-            Held::None => None,
-            Held::LShift => Some("lsft"),
-            Held::RShift => Some("rsft"),
-            Held::AltGr => Some("ralt"),
+            Held::None => &[],
+            Held::LShift => &["lsft"],
+            Held::RShift => &["rsft"],
+            Held::BothLR => &["lsft", "rsft"],
+            Held::BothRL => &["rsft", "lsft"],
+            Held::AltGr => &["ralt"],
         }
+    }
+    fn shifted(self) -> bool {
+        matches!(self, Held::LShift | Held::RShift | Held::BothLR | Held::BothRL)
+    }
+    fn name(self) -> &'static str {
+        match self {
+            Held::None => "none",
+            Held::LShift => "lsft",
+            Held::RShift => "rsft",
+            Held::BothLR | Held::BothRL => "lsft+rsft",
+            Held::AltGr => "ralt",
+        }
+    }
+    /// names of the OS keys that must be down while the user holds the modifier(s), sorted
+    fn os_names(self) -> Vec<String> {
+        let mut v: Vec<String> = self.keys().iter().map(|k| code_name(osc(k))).collect();
+        v.sort();
+        v
+    }
+    fn push_press(self, h: &mut Vec<Ev>, rng: &mut Rng) {
+        for m in self.keys() {
+            h.push(Ev::P(osc(m)));
+            h.push(Ev::T(1 + rng.below(3) as u32));
+        }
+    }
+    fn push_release(self, h: &mut Vec<Ev>, rng: &mut Rng) {
+        let mut ks: Vec<&str> = self.keys().to_vec();
+        if ks.len() > 1 && rng.chance(1, 2) {
+            ks.reverse();
+        }
+        for m in ks {
+            h.push(Ev::R(osc(m)));
+            h.push(Ev::T(1 + rng.below(3) as u32));
+        }
+    }
+}
+
+/// one of the shift variants, for the families that hold a modifier only now and then
+fn pick_shift(rng: &mut Rng) -> Held {
+    *rng.pick(&[Held::LShift, Held::RShift, Held::BothLR, Held::BothRL])
+}
+
+/// What a held shift does to an expansion: the first character is typed while the user's shift is
+/// still down (so a letter comes out as a capital), the rest exactly as configured.
+fn cap_first(out: &str) -> String {
+    let mut cs = out.chars();
+    match cs.next() {
+        Some(c) => c.to_ascii_uppercase().to_string() + cs.as_str(),
+        None => String::new(),
+    }
+}
+
+/// With shift held the exact case of the text is judged unless the final expansion starts with the
+/// same character (ignoring case) as the expansion activated just before it: then a part of the
+/// earlier text may be re-used and neither the statement nor the guide says which character counts
+/// as "the first".
+fn case_exact_judged(prev_out: Option<&str>, out: &str) -> bool {
+    match (prev_out.and_then(|p| p.chars().next()), out.chars().next()) {
+        (Some(a), Some(b)) => !a.eq_ignore_ascii_case(&b),
+        (_, Some(_)) => true,
+        (_, None) => false,
     }
 }
 
@@ -377,10 +457,7 @@ fn build_entry(orders: &[Vec<char>], held: Held, tail: Tail, rng: &mut Rng) -> B
 /// `chord_gap`: pause between the chords of a line instead of a short one
 fn build_entry_timed(orders: &[Vec<char>], held: Held, tail: Tail, rng: &mut Rng, slow: Option<(usize, u32)>, chord_gap: Option<u32>) -> Built {
     let mut h = vec![Ev::T(3)];
-    if let Some(m) = held.key() {
-        h.push(Ev::P(osc(m)));
-        h.push(Ev::T(2 + rng.below(3) as u32));
-    }
+    held.push_press(&mut h, rng);
     for (ci, order) in orders.iter().enumerate() {
         for (i, k) in order.iter().enumerate() {
             h.push(Ev::P(osc(&keyname(*k))));
@@ -407,10 +484,8 @@ fn build_entry_timed(orders: &[Vec<char>], held: Held, tail: Tail, rng: &mut Rng
     }
     h.push(Ev::T(4));
     let check_mod_at = h.len();
-    if let Some(m) = held.key() {
-        h.push(Ev::R(osc(m)));
-        h.push(Ev::T(3));
-    }
+    held.push_release(&mut h, rng);
+    h.push(Ev::T(2));
     let tap = |h: &mut Vec<Ev>, k: &str| {
         h.push(Ev::P(osc(k)));
         h.push(Ev::T(3));
@@ -474,10 +549,25 @@ struct Structure {
     ambiguous: bool,
     chain_len: usize,
     shape: &'static str,
+    /// outputs of all nodes completed while the line is typed, in order ("" for an implied node)
+    activations: Vec<String>,
+}
+impl Structure {
+    /// output of the last non-empty expansion activated before the final one
+    fn prev_out(&self) -> Option<&str> {
+        let n = self.activations.len();
+        if n < 2 {
+            return None;
+        }
+        self.activations[..n - 1].iter().rev().find(|o| !o.is_empty()).map(|o| o.as_str())
+    }
+    fn known_structure(&self) -> bool {
+        self.followup_part_not_in_toplevel || self.followup_within_hold || self.followup_extends_sibling || self.empty_node_after_activation || self.chain_shared_prefix
+    }
 }
 
 fn analyse(d: &Dict, e: &Entry, orders: &[Vec<char>]) -> Structure {
-    let mut st = Structure { followup_part_not_in_toplevel: false, followup_within_hold: false, empty_node_after_activation: false, followup_extends_sibling: false, chain_shared_prefix: false, ambiguous: false, chain_len: 0, shape: if e.chords.len() > 1 { "followup" } else { "single-chord" } };
+    let mut st = Structure { followup_part_not_in_toplevel: false, followup_within_hold: false, empty_node_after_activation: false, followup_extends_sibling: false, chain_shared_prefix: false, ambiguous: false, chain_len: 0, shape: if e.chords.len() > 1 { "followup" } else { "single-chord" }, activations: vec![] };
     let top = d.toplevel_sets();
     let mut prefix_path: Vec<BTreeSet<char>> = vec![];
     for (ci, order) in orders.iter().enumerate() {
@@ -504,6 +594,7 @@ fn analyse(d: &Dict, e: &Entry, orders: &[Vec<char>]) -> Structure {
                 if ci > 0 && !last {
                     st.followup_extends_sibling = true;
                 }
+                st.activations.push(o.clone());
                 chain.push(o);
                 activated.push(p.clone());
             } else if ci > 0 && !last && top.contains(&heldset) {
@@ -552,6 +643,23 @@ impl HoldWalk {
         let c = &self.chain;
         c.len() >= 3 && (0..c.len() - 2).any(|w| !c[w].is_empty() && !c[w + 1].is_empty() && c[w].chars().next() == c[w + 1].chars().next())
     }
+}
+
+impl HoldWalk {
+    /// output of the last non-empty expansion completed in this hold before the final one
+    fn prev_out(&self) -> Option<&str> {
+        let n = self.chain.len();
+        if n < 2 {
+            return None;
+        }
+        self.chain[..n - 1].iter().rev().find(|o| !o.is_empty()).map(|o| o.as_str())
+    }
+}
+
+fn mods_down(keys: &BTreeSet<String>) -> Vec<String> {
+    let mut v: Vec<String> = keys.iter().filter(|k| matches!(k.as_str(), "LShift" | "RShift" | "RAlt")).cloned().collect();
+    v.sort();
+    v
 }
 
 /// `evs`: (true = press / false = release, key)
@@ -831,6 +939,11 @@ impl Check for C20Check {
                 if pi % 5 == 3 {
                     variants.push(Held::AltGr);
                 }
+                // both shift keys, in either press order
+                match (pi + ei) % 3 {
+                    0 => variants.push(if (pi / 3 + ei) % 2 == 0 { Held::BothLR } else { Held::BothRL }),
+                    _ => {}
+                }
                 for held in variants {
                     let mut orders: Vec<Vec<char>> = e.chords[..e.chords.len() - 1]
                         .iter()
@@ -847,6 +960,12 @@ impl Check for C20Check {
                         out.inc("scenarios_skipped_followup_vs_toplevel");
                         continue;
                     }
+                    if st.followup_part_not_in_toplevel && (held != Held::None || pi % 2 == 1) {
+                        // known finding #18 fails in every such scenario: a sample (no modifier, every
+                        // second press order) keeps the class and its ':other-outcome' split observed
+                        out.inc("scenarios_not_run_known_18_structure_sampled");
+                        continue;
+                    }
                     let b = build_entry(&orders, held, tail, &mut rng);
                     out.inc("entry_scenarios");
                     let (trace, mods_mid) = match run(&cfg, &file, &b.hist, Some(b.check_mod_at)) {
@@ -858,13 +977,21 @@ impl Check for C20Check {
                     };
                     let (screen, down_end) = replay(&trace, &km);
                     let got = text(&screen);
-                    let want = expected_entry(&e.out, smart, tail);
-                    let shifted = matches!(held, Held::LShift | Held::RShift);
-                    let same = if shifted { got.to_lowercase() == want.to_lowercase() } else { got == want };
+                    let shifted = held.shifted();
+                    // with shift the exact case is judged too (first character typed under the user's
+                    // shift, the rest as configured) unless an earlier text may be re-used
+                    let case_judged = shifted && !st.known_structure() && case_exact_judged(st.prev_out(), &e.out);
+                    let want = if case_judged { expected_entry(&cap_first(&e.out), smart, tail) } else { expected_entry(&e.out, smart, tail) };
+                    let same_nocase = got.to_lowercase() == want.to_lowercase();
+                    let same = if shifted && !case_judged { same_nocase } else { got == want };
+                    if shifted {
+                        out.inc(if case_judged { "shift_scenarios_case_judged" } else { "shift_scenarios_case_not_judged" });
+                    }
                     out.count("backspaces_counted", screen.backspaces);
                     out.max("followup_depth", e.chords.len() as u64);
                     out.max("superset_chain", st.chain_len as u64);
                     out.tag(format!("{}:{}:k{}:{:?}:{:?}:{}", st.shape, e.chords.len(), last.len(), held, tail, smart.name()));
+                    let _ = ei;
                     let witness = |extra: Value| {
                         json!({"config": cfg, "files": {"dict.txt": file}, "entry": e.line(), "press_orders": orders.iter().map(|o| o.iter().collect::<String>()).collect::<Vec<_>>(), "held_modifier": format!("{held:?}"), "tail": format!("{tail:?}"),
                             "history": render_hist(&b.hist), "observed": {"text": got, "os_stream": trace.iter().map(|o| o.short()).collect::<Vec<_>>()}, "expected": extra})
@@ -889,10 +1016,21 @@ impl Check for C20Check {
                         }
                         if shifted {
                             out.inc("entries_with_shift_exact");
+                            if case_judged {
+                                out.inc("entries_with_shift_case_exact");
+                                match held {
+                                    Held::RShift => out.inc("entries_with_rsft_alone_case_exact"),
+                                    Held::BothLR | Held::BothRL => out.inc("entries_with_both_shifts_case_exact"),
+                                    _ => {}
+                                }
+                            }
                         }
                         if tail != Tail::None {
                             out.inc("entries_with_tail_exact");
                         }
+                    } else if case_judged && same_nocase {
+                        // right letters, wrong case: what the user's shift key(s) did to the expansion
+                        out.violate(format!("C20:wrong-case-with-shift-held:{}:{}", held.name(), st.shape), format!("after completing the entry {:?} (press order {:?}) with {} held the application shows {:?} instead of {:?} (first character under shift, the rest as configured)", e.line(), orders.last().map(|o| o.iter().collect::<String>()).unwrap_or_default(), held.name(), got, want), witness(json!({"text": want, "case_insensitive": false})));
                     } else {
                         let class = if st.followup_part_not_in_toplevel {
                             // the known class covers only the outcome the defect produces (zippy resets,
@@ -919,22 +1057,24 @@ impl Check for C20Check {
                         } else {
                             st.shape
                         };
-                        out.violate(format!("C20:wrong-text:{class}"), format!("after completing the entry {:?} (press order {:?}, {:?} held, smart-space {}) the application shows {:?} instead of {:?}", e.line(), orders.last().map(|o| o.iter().collect::<String>()).unwrap_or_default(), held, smart.name(), got, want), witness(json!({"text": want, "case_insensitive": shifted})));
+                        out.violate(format!("C20:wrong-text:{class}"), format!("after completing the entry {:?} (press order {:?}, {:?} held, smart-space {}) the application shows {:?} instead of {:?}", e.line(), orders.last().map(|o| o.iter().collect::<String>()).unwrap_or_default(), held, smart.name(), got, want), witness(json!({"text": want, "case_insensitive": shifted && !case_judged})));
                     }
                     // modifiers: while the user still holds the modifier it must be down, afterwards everything is up
-                    let mod_name = held.key().map(|k| code_name(osc(k)));
                     let mid = mods_mid.unwrap_or_default();
-                    let mid_mods: Vec<&String> = mid.iter().filter(|k| matches!(k.as_str(), "LShift" | "RShift" | "RAlt")).collect();
-                    let want_mid: Vec<String> = mod_name.iter().cloned().collect();
-                    let mid_ok = mid_mods.iter().map(|s| s.to_string()).collect::<Vec<_>>() == want_mid;
+                    let mut mid_mods: Vec<String> = mid.iter().filter(|k| matches!(k.as_str(), "LShift" | "RShift" | "RAlt")).cloned().collect();
+                    mid_mods.sort();
+                    let want_mid: Vec<String> = held.os_names();
+                    let mid_ok = mid_mods == want_mid;
                     if !mid_ok && same {
                         out.violate("C20:modifier-not-restored", format!("after the expansion the OS has {mid_mods:?} down while the user holds {want_mid:?}"), witness(json!({"modifiers_down_after_expansion": want_mid})));
                     } else if !down_end.is_empty() && same {
                         out.violate("C20:keys-left-down", format!("after everything was released the OS still has {down_end:?} down"), witness(json!({"keys_down_at_end": []})));
                     } else if same {
                         out.inc("modifier_state_restored");
+                        if matches!(held, Held::BothLR | Held::BothRL) {
+                            out.inc("both_shifts_restored");
+                        }
                     }
-                    let _ = ei;
                 }
             }
         }
@@ -1181,37 +1321,43 @@ impl Check for C20Check {
                             out.inc("after_line_skipped_known_structure");
                             continue;
                         }
-                        let held = if rng.chance(1, 4) { Held::LShift } else { Held::None };
+                        let held = if rng.chance(1, 4) { pick_shift(&mut rng) } else { Held::None };
                         let tail = *rng.pick(&[Tail::None, Tail::None, Tail::Letter, Tail::Dot]);
                         let pause = *rng.pick(&[3u32, 8, deadline + 20]);
                         let pb = build_entry_timed(&porders, Held::None, Tail::None, &mut rng, None, None);
                         let mut h = pb.hist.clone();
                         h.push(Ev::T(pause));
-                        if let Some(m) = held.key() {
-                            h.push(Ev::P(osc(m)));
-                            h.push(Ev::T(2));
-                        }
+                        held.push_press(&mut h, &mut rng);
                         push_presses(&mut h, &order, &[1, 1, 2, 3], &mut rng);
                         h.push(Ev::T(*rng.pick(&[2u32, 5, 8])));
                         push_releases(&mut h, &order, &[0, 1, 2], &mut rng);
                         h.push(Ev::T(4));
-                        if let Some(m) = held.key() {
-                            h.push(Ev::R(osc(m)));
-                            h.push(Ev::T(3));
-                        }
+                        let mod_at = h.len();
+                        held.push_release(&mut h, &mut rng);
+                        h.push(Ev::T(2));
                         push_tail(&mut h, tail);
                         h.push(Ev::T(10));
-                        let Ok((trace, _)) = run(&cfg, &file, &h, None) else { continue };
+                        let Ok((trace, mods_mid)) = run(&cfg, &file, &h, Some(mod_at)) else { continue };
                         let (screen, down_end) = replay(&trace, &km);
                         let got = text(&screen);
+                        let case_judged = held.shifted() && case_exact_judged(w.prev_out(), &t.out);
                         let first = expected_entry(&parent.out, smart, Tail::None);
-                        let second = expected_entry(&t.out, smart, tail);
+                        let second = if case_judged { expected_entry(&cap_first(&t.out), smart, tail) } else { expected_entry(&t.out, smart, tail) };
                         let want = format!("{first}{}", &second[SENTINEL.len()..]);
-                        let same = if held == Held::LShift { got.to_lowercase() == want.to_lowercase() } else { got == want };
+                        let same_nocase = got.to_lowercase() == want.to_lowercase();
+                        let same = if held.shifted() && !case_judged { same_nocase } else { got == want };
+                        let mid_mods = mods_down(&mods_mid.unwrap_or_default());
+                        let mods_ok = mid_mods == held.os_names();
                         out.inc("after_line_scenarios");
                         out.tag(format!("after-line:{}:{}:k{}:{:?}:{:?}:{}", pl, if part_of_pending { "part-of-pending-followup" } else if fups.is_empty() { "nothing-pending" } else { "unrelated-to-pending" }, order.len(), held, tail, smart.name()));
-                        if same && down_end.is_empty() {
+                        if same && down_end.is_empty() && mods_ok {
                             out.inc("toplevel_chord_after_line_exact");
+                            if case_judged {
+                                out.inc("other_families_with_shift_case_exact");
+                                if matches!(held, Held::BothLR | Held::BothRL) {
+                                    out.inc("other_families_with_both_shifts_case_exact");
+                                }
+                            }
                             if !fups.is_empty() {
                                 out.inc("toplevel_chord_after_line_with_pending_followups_exact");
                             }
@@ -1220,8 +1366,11 @@ impl Check for C20Check {
                             }
                         } else {
                             let w = json!({"config": cfg, "files": {"dict.txt": file}, "earlier_line": parent.line(), "entry": t.line(), "pending_followup_chords": fups.iter().map(|f| f.iter().collect::<String>()).collect::<Vec<_>>(), "press_order": order.iter().collect::<String>(), "held_modifier": format!("{held:?}"),
-                                "history": render_hist(&h), "observed": {"text": got, "keys_down_at_end": down_end, "os_stream": trace.iter().map(|o| o.short()).collect::<Vec<_>>()}, "expected": {"text": want, "case_insensitive": held == Held::LShift, "keys_down_at_end": []}});
-                            let sig = if !same {
+                                "history": render_hist(&h), "observed": {"text": got, "keys_down_at_end": down_end, "modifiers_down_before_their_release": mid_mods, "os_stream": trace.iter().map(|o| o.short()).collect::<Vec<_>>()}, "expected": {"text": want, "case_insensitive": held.shifted() && !case_judged, "keys_down_at_end": [], "modifiers_down_before_their_release": held.os_names()}});
+                            let case_sig = format!("C20:wrong-case-with-shift-held:{}:toplevel-chord-after-line", held.name());
+                            let sig = if !same && case_judged && same_nocase {
+                                case_sig.as_str()
+                            } else if !same {
                                 if part_of_pending {
                                     "C20:wrong-text:toplevel-chord-after-line:part-of-pending-followup"
                                 } else if !fups.is_empty() {
@@ -1229,6 +1378,8 @@ impl Check for C20Check {
                                 } else {
                                     "C20:wrong-text:toplevel-chord-after-line"
                                 }
+                            } else if !mods_ok {
+                                "C20:modifier-not-restored"
                             } else {
                                 "C20:keys-left-down"
                             };
@@ -1271,13 +1422,10 @@ impl Check for C20Check {
                             out.inc("partial_release_skipped_known_structure");
                             continue;
                         }
-                        let held = if rng.chance(1, 4) { Held::LShift } else { Held::None };
+                        let held = if rng.chance(1, 4) { pick_shift(&mut rng) } else { Held::None };
                         let tail = *rng.pick(&[Tail::None, Tail::None, Tail::Letter, Tail::Dot]);
                         let mut h = vec![Ev::T(3)];
-                        if let Some(m) = held.key() {
-                            h.push(Ev::P(osc(m)));
-                            h.push(Ev::T(2));
-                        }
+                        held.push_press(&mut h, &mut rng);
                         push_presses(&mut h, &first, &[1, 2], &mut rng);
                         h.push(Ev::T(*rng.pick(&[2u32, 4])));
                         let mut r2 = rel.clone();
@@ -1292,17 +1440,20 @@ impl Check for C20Check {
                         let all: Vec<char> = lset.iter().copied().collect();
                         push_releases(&mut h, &all, &[0, 1, 2], &mut rng);
                         h.push(Ev::T(4));
-                        if let Some(m) = held.key() {
-                            h.push(Ev::R(osc(m)));
-                            h.push(Ev::T(3));
-                        }
+                        let mod_at = h.len();
+                        held.push_release(&mut h, &mut rng);
+                        h.push(Ev::T(2));
                         push_tail(&mut h, tail);
                         h.push(Ev::T(10));
-                        let Ok((trace, _)) = run(&cfg, &file, &h, None) else { continue };
+                        let Ok((trace, mods_mid)) = run(&cfg, &file, &h, Some(mod_at)) else { continue };
                         let (screen, down_end) = replay(&trace, &km);
                         let got = text(&screen);
-                        let want = expected_entry(&l_e.out, smart, tail);
-                        let same = if held == Held::LShift { got.to_lowercase() == want.to_lowercase() } else { got == want };
+                        let case_judged = held.shifted() && case_exact_judged(w.prev_out(), &l_e.out);
+                        let want = if case_judged { expected_entry(&cap_first(&l_e.out), smart, tail) } else { expected_entry(&l_e.out, smart, tail) };
+                        let same_nocase = got.to_lowercase() == want.to_lowercase();
+                        let same = if held.shifted() && !case_judged { same_nocase } else { got == want };
+                        let mid_mods = mods_down(&mods_mid.unwrap_or_default());
+                        let mods_ok = mid_mods == held.os_names();
                         out.inc("partial_release_scenarios");
                         let shape = if w.reactivation {
                             "chord-completed-again"
@@ -1315,26 +1466,251 @@ impl Check for C20Check {
                         };
                         out.tag(format!("partial-release:{shape}:k{}:k{}:rel{}:{:?}:{:?}:{}", sset.len(), lset.len(), rel.len(), held, tail, smart.name()));
                         out.inc(&format!("structure:partial-release:{shape}:{}", if same { "text-exact" } else { "text-wrong" }));
-                        if same && down_end.is_empty() {
+                        if same && down_end.is_empty() && mods_ok {
                             out.inc("longer_chord_after_partial_release_exact");
+                            if case_judged {
+                                out.inc("other_families_with_shift_case_exact");
+                                if matches!(held, Held::BothLR | Held::BothRL) {
+                                    out.inc("other_families_with_both_shifts_case_exact");
+                                }
+                            }
                             if lset.len() >= sset.len() + 2 && w.chain.len() == 2 {
                                 out.inc("longer_chord_two_keys_apart_after_partial_release_exact");
                             }
                         } else {
                             let wj = json!({"config": cfg, "files": {"dict.txt": file}, "shorter_entry": s_e.line(), "entry": l_e.line(), "press_order": first.iter().collect::<String>(), "released": r2.iter().collect::<String>(), "then_pressed": rest.iter().collect::<String>(), "held_modifier": format!("{held:?}"),
-                                "completed_on_the_way": w.chain, "history": render_hist(&h), "observed": {"text": got, "keys_down_at_end": down_end, "os_stream": trace.iter().map(|o| o.short()).collect::<Vec<_>>()}, "expected": {"text": want, "case_insensitive": held == Held::LShift, "keys_down_at_end": []}});
+                                "completed_on_the_way": w.chain, "history": render_hist(&h), "observed": {"text": got, "keys_down_at_end": down_end, "modifiers_down_before_their_release": mid_mods, "os_stream": trace.iter().map(|o| o.short()).collect::<Vec<_>>()}, "expected": {"text": want, "case_insensitive": held.shifted() && !case_judged, "keys_down_at_end": [], "modifiers_down_before_their_release": held.os_names()}});
                             let mut shape = shape.to_string();
-                            if w.reactivation && !same {
+                            let case_only = !same && case_judged && same_nocase;
+                            if w.reactivation && !same && !case_only {
                                 // the known class covers only the outcome that defect produces
                                 let pred = if w.chain.len() == 3 { predicted_reactivation_outcome(&s_e.out, &l_e.out, rel.len(), &rest_after, smart, tail) } else { None };
                                 match pred {
-                                    Some(p) if (held == Held::LShift && p.to_lowercase() == got.to_lowercase()) || p == got => out.inc("known_reactivation_outcome_as_predicted"),
+                                    Some(p) if (held.shifted() && p.to_lowercase() == got.to_lowercase()) || p == got => out.inc("known_reactivation_outcome_as_predicted"),
                                     Some(_) => shape.push_str(":other-outcome"),
                                     None => out.inc("known_reactivation_outcome_not_predictable"),
                                 }
                             }
-                            let sig = if same { "C20:keys-left-down".to_string() } else { format!("C20:wrong-text:longer-chord-after-partial-release:{shape}") };
+                            let sig = if case_only {
+                                format!("C20:wrong-case-with-shift-held:{}:longer-chord-after-partial-release", held.name())
+                            } else if !same {
+                                format!("C20:wrong-text:longer-chord-after-partial-release:{shape}")
+                            } else if !mods_ok {
+                                "C20:modifier-not-restored".to_string()
+                            } else {
+                                "C20:keys-left-down".to_string()
+                            };
                             out.violate(sig, format!("{:?} completed ({:?}), {:?} released, then {:?} pressed so that all keys of {:?} are held ({:?} held, smart-space {}): the application shows {got:?} instead of {want:?}", s_e.line(), first.iter().collect::<String>(), r2.iter().collect::<String>(), rest.iter().collect::<String>(), l_e.line(), held, smart.name()), wj);
+                        }
+                    }
+                }
+            }
+        }
+        // ---- ordinary typing between a line that has follow-up lines and a later follow-up chord: the line
+        // is completed and fully released, the user types something that forms no chord (or a different
+        // chord), waits, and then presses the keys of a follow-up chord of that line. A follow-up continues
+        // the expansion it directly follows; after other typing it would have to erase text the user typed,
+        // so everything typed in between stays and the keys are what they are on their own (plain typing, or
+        // a top-level chord of their own).
+        {
+            let top = d.toplevel_sets();
+            let part_keys: Vec<char> = {
+                let mut v: BTreeSet<char> = BTreeSet::new();
+                for t in top.iter().filter(|t| t.len() >= 2) {
+                    v.extend(t.iter().copied());
+                }
+                v.into_iter().filter(|k| !top.iter().any(|t| t.len() == 1 && t.contains(k))).collect()
+            };
+            let tops: Vec<&Entry> = d.entries.iter().filter(|e| e.chords.len() == 1 && e.chords[0].len() >= 2).collect();
+            // keys that occur in no chord of the dictionary at all (the fixed dictionaries use some of FOREIGN)
+            let foreign: Vec<char> = FOREIGN.iter().copied().filter(|k| !sets.iter().any(|x| x.contains(k))).collect();
+            let fcap = ctx.tier.sel(3, 6);
+            for parent in d.entries.iter() {
+                let pl = parent.chords.len();
+                let pp = parent.path();
+                let mut fups: Vec<BTreeSet<char>> = d.entries.iter().filter(|x| x.chords.len() > pl && x.path()[..pl] == pp[..]).map(|x| x.path()[pl].clone()).collect();
+                fups.sort();
+                fups.dedup();
+                if fups.is_empty() {
+                    continue;
+                }
+                let porders: Vec<Vec<char>> = parent
+                    .chords
+                    .iter()
+                    .map(|c| {
+                        let mut c = c.clone();
+                        rng.shuffle(&mut c);
+                        c
+                    })
+                    .collect();
+                let pst = analyse(&d, parent, &porders);
+                if pst.ambiguous || pst.known_structure() {
+                    continue;
+                }
+                let mut fsel = fups.clone();
+                rng.shuffle(&mut fsel);
+                fsel.truncate(fcap);
+                for f in fsel.iter() {
+                    for kind in ["lone-tap-of-chord-part", "foreign-key-tap", "several-taps", "space", "punctuation", "rolled-pair", "other-chord"] {
+                        let idle = deadline; // idle-reactivate-time is configured equal to the deadline
+                        let after_idle = !rng.chance(1, 4);
+                        let wait = if after_idle { idle + 20 } else { 6 };
+                        let mut iv: Vec<Ev> = vec![];
+                        let mut typed = String::new();
+                        let mut erases_smart_space = false;
+                        let mut t_fups: Vec<BTreeSet<char>> = vec![];
+                        let mut detail = String::new();
+                        let tap = |iv: &mut Vec<Ev>, k: char, hold: u32, after: u32| {
+                            iv.push(Ev::P(osc(&keyname(k))));
+                            iv.push(Ev::T(hold));
+                            iv.push(Ev::R(osc(&keyname(k))));
+                            iv.push(Ev::T(after));
+                        };
+                        let single_fup = |k: char| fups.iter().any(|x| x.len() == 1 && x.contains(&k));
+                        match kind {
+                            "lone-tap-of-chord-part" => {
+                                let cands: Vec<char> = part_keys.iter().copied().filter(|k| !single_fup(*k)).collect();
+                                if cands.is_empty() {
+                                    continue;
+                                }
+                                let k = *rng.pick(&cands);
+                                let hold = *rng.pick(&[2u32, 2, 5, deadline + 10]);
+                                tap(&mut iv, k, hold, 2);
+                                typed.push(k);
+                                detail = format!("{k}");
+                            }
+                            "foreign-key-tap" => {
+                                if foreign.is_empty() {
+                                    continue;
+                                }
+                                let k = *rng.pick(&foreign);
+                                tap(&mut iv, k, *rng.pick(&[2u32, 5]), 2);
+                                typed.push(k);
+                                detail = format!("{k}");
+                            }
+                            "several-taps" => {
+                                let mut cands: Vec<char> = part_keys.iter().copied().filter(|k| !single_fup(*k)).collect();
+                                cands.extend_from_slice(&foreign);
+                                if cands.is_empty() {
+                                    continue;
+                                }
+                                for _ in 0..2 + rng.usize(3) {
+                                    let k = *rng.pick(&cands);
+                                    tap(&mut iv, k, *rng.pick(&[1u32, 3, 6]), *rng.pick(&[1u32, 3, 40]));
+                                    typed.push(k);
+                                }
+                                detail = typed.clone();
+                            }
+                            "space" => {
+                                tap(&mut iv, ' ', 3, 2);
+                                typed.push(' ');
+                            }
+                            "punctuation" => {
+                                let k = *rng.pick(&['.', ',', ';']);
+                                tap(&mut iv, k, 3, 2);
+                                typed.push(k);
+                                erases_smart_space = smart == Smart::Full;
+                            }
+                            "rolled-pair" => {
+                                let mut found = None;
+                                for _ in 0..8 {
+                                    let a = *rng.pick(&POOL);
+                                    let b = *rng.pick(&POOL);
+                                    let pair: BTreeSet<char> = [a, b].into_iter().collect();
+                                    if a != b && !sets.iter().any(|x| pair.is_subset(x) || x.is_subset(&pair)) {
+                                        found = Some((a, b));
+                                        break;
+                                    }
+                                }
+                                let Some((a, b)) = found else { continue };
+                                iv.extend([Ev::P(osc(&keyname(a))), Ev::T(2), Ev::P(osc(&keyname(b))), Ev::T(2), Ev::R(osc(&keyname(a))), Ev::T(1), Ev::R(osc(&keyname(b))), Ev::T(2)]);
+                                typed.push(a);
+                                typed.push(b);
+                                detail = typed.clone();
+                            }
+                            _ => {
+                                // a different top-level chord, typed on its own
+                                if tops.is_empty() {
+                                    continue;
+                                }
+                                let t = *rng.pick(&tops);
+                                let tp = t.path();
+                                if tp[..] == pp[..1] {
+                                    continue;
+                                }
+                                let mut order = t.chords[0].clone();
+                                rng.shuffle(&mut order);
+                                let evs: Vec<(bool, char)> = order.iter().map(|k| (true, *k)).collect();
+                                let w = walk_hold(&d, &evs);
+                                let mut hs: BTreeSet<char> = BTreeSet::new();
+                                let hits_followup = order.iter().any(|k| {
+                                    hs.insert(*k);
+                                    fups.contains(&hs)
+                                });
+                                if hits_followup || w.chain.len() != 1 || w.followup_within_hold || w.empty_node_after_activation || t.out.is_empty() {
+                                    continue;
+                                }
+                                t_fups = d.entries.iter().filter(|x| x.chords.len() > 1 && x.path()[..1] == tp[..]).map(|x| x.path()[1].clone()).collect();
+                                push_presses(&mut iv, &order, &[1, 2, 3], &mut rng);
+                                iv.push(Ev::T(3));
+                                push_releases(&mut iv, &order, &[0, 1, 2], &mut rng);
+                                iv.push(Ev::T(2));
+                                typed.push_str(&expected_entry(&t.out, smart, Tail::None)[SENTINEL.len()..]);
+                                detail = t.line();
+                            }
+                        }
+                        // the follow-up chord's keys, and what they are on their own
+                        let mut forder: Vec<char> = f.iter().copied().collect();
+                        rng.shuffle(&mut forder);
+                        let fevs: Vec<(bool, char)> = forder.iter().map(|k| (true, *k)).collect();
+                        let fw = walk_hold(&d, &fevs);
+                        let mut hs: BTreeSet<char> = BTreeSet::new();
+                        let hits_other_followup = forder.iter().any(|k| {
+                            hs.insert(*k);
+                            t_fups.contains(&hs)
+                        });
+                        if hits_other_followup {
+                            out.inc("followup_after_typing_skipped_keys_follow_the_other_chord");
+                            continue;
+                        }
+                        let own: String = if fw.chain.is_empty() {
+                            forder.iter().collect()
+                        } else if after_idle && fw.chain.len() == 1 && fw.chain_sets[0] == *f && !fw.chain[0].is_empty() && !fw.followup_within_hold {
+                            expected_entry(&fw.chain[0], smart, Tail::None)[SENTINEL.len()..].to_string()
+                        } else {
+                            out.inc("followup_after_typing_skipped_keys_touch_toplevel_chords");
+                            continue;
+                        };
+                        let own_is_chord = !fw.chain.is_empty();
+                        let pb = build_entry_timed(&porders, Held::None, Tail::None, &mut rng, None, None);
+                        let mut h = pb.hist.clone();
+                        h.push(Ev::T(*rng.pick(&[0u32, 5, deadline + 20])));
+                        h.extend(iv.iter().cloned());
+                        h.push(Ev::T(wait));
+                        push_presses(&mut h, &forder, &[1, 2, 3], &mut rng);
+                        h.push(Ev::T(*rng.pick(&[2u32, 5])));
+                        push_releases(&mut h, &forder, &[0, 1, 2], &mut rng);
+                        h.push(Ev::T(10));
+                        let Ok((trace, _)) = run(&cfg, &file, &h, None) else { continue };
+                        let (screen, down_end) = replay(&trace, &km);
+                        let got = text(&screen);
+                        let mut want = expected_entry(&parent.out, smart, Tail::None);
+                        if erases_smart_space && want.ends_with(' ') && !parent.out.ends_with(' ') {
+                            want.pop();
+                        }
+                        want.push_str(&typed);
+                        want.push_str(&own);
+                        out.inc("followup_after_typing_scenarios");
+                        let when = if after_idle { "after-idle" } else { "before-idle" };
+                        out.tag(format!("followup-after-typing:{kind}:{when}:{}:k{}:{}:{}", pl, f.len(), if own_is_chord { "own-chord" } else { "plain" }, smart.name()));
+                        if got == want && down_end.is_empty() {
+                            out.inc("followup_after_typing_exact");
+                            out.inc(&format!("followup_after_typing_exact:{kind}:{when}"));
+                        } else {
+                            let wj = json!({"config": cfg, "files": {"dict.txt": file}, "earlier_line": parent.line(), "followup_chord": f.iter().collect::<String>(), "typed_in_between": {"kind": kind, "what": detail, "text": typed}, "pause_before_followup_keys_ms": wait, "press_order": forder.iter().collect::<String>(),
+                                "history": render_hist(&h), "observed": {"text": got, "keys_down_at_end": down_end, "backspaces": screen.backspaces, "os_stream": trace.iter().map(|o| o.short()).collect::<Vec<_>>()}, "expected": {"text": want, "keys_down_at_end": []}});
+                            let sig = if got != want { format!("C20:wrong-text:followup-chord-after-typing:{kind}") } else { "C20:keys-left-down".to_string() };
+                            out.violate(sig, format!("{:?} completed and released, then {kind} ({detail:?}), {wait} ms pause, then the keys {:?} of its follow-up chord: the application shows {got:?} instead of {want:?}", parent.line(), forder.iter().collect::<String>()), wj);
                         }
                     }
                 }
@@ -1346,12 +1722,14 @@ impl Check for C20Check {
         out
     }
     fn rule(&self) -> String {
-        "case = one dictionary (45 cases with fixed dictionaries that are the same for every seed: the guide's / the tests' samples and the known-finding witnesses; then generated: 2-4 top-level chords of 2-4 keys over a-h, chords extending other chords by one or two keys up to three levels with and without a shared output prefix, follow-up chords of 1-3 keys up to depth 3 incl. keys that occur in no top-level chord, in 2 of 5 dictionaries a follow-up chord that strictly contains a top-level chord, nodes with empty output, upper/lower-case outputs with inner and trailing spaces) x one smart-space setting (idx mod 3) x deadline 30/500. Every entry is typed with every permutation of its last chord's keys (capped at 24 quick / 120 thorough; earlier chords in random order), gaps 1-3 ms, without modifier and with lsft / rsft / ralt held, followed by nothing / a foreign letter / a dot / both; then 4-8 random non-chord typings (taps, rolled pairs that are no subset of a chord, shift, punctuation, pauses), one too-slow chord, for every entry that extends another entry: the smaller chord first, the extending keys deadline-5 ms (must extend: an activation restarts the deadline) and deadline+5 ms (must pass through) after it, and every follow-up line with deadline+20 ms between its chords; AFTER-LINE family: every line that has follow-up lines (plus one that has none) is completed and fully released, then (3 ms / 8 ms / deadline+20 ms later) every top-level chord is typed in up to 4 (thorough 12) press orders, sometimes with lsft, with a tail - orders whose keys complete a follow-up chord of the earlier line on the way are skipped (the follow-up is meant), the counter toplevel_chord_part_of_pending_followup_exact counts chords that are a strict part of a pending multi-key follow-up chord (the generator adds such a follow-up to 2 of 5 dictionaries); PARTIAL-RELEASE family: for every pair of top-level chords S < L (the generator extends chords by one or by two keys): S in random order, a random non-empty proper subset of S released, then the released keys and the keys of L-S in random order (6 draws per pair, thorough 16), all within the deadline, sometimes with lsft, with a tail; classified by what is completed on the way (direct / via another chord / S a second time / >=3 completions with shared first character). Non-trivial = entry scenario replayed through the text-buffer model; distinct = (shape, depth, chord size, modifier, tail, smart-space).".into()
+        "case = one dictionary (45 cases with fixed dictionaries that are the same for every seed: the guide's / the tests' samples and the known-finding witnesses; then generated: 2-4 top-level chords of 2-4 keys over a-h, chords extending other chords by one or two keys up to three levels with and without a shared output prefix, follow-up chords of 1-3 keys up to depth 3 incl. keys that occur in no top-level chord, in 2 of 5 dictionaries a follow-up chord that strictly contains a top-level chord, nodes with empty output, upper/lower-case outputs with inner and trailing spaces) x one smart-space setting (idx mod 3) x deadline 30/500. Every entry is typed with every permutation of its last chord's keys (capped at 24 quick / 120 thorough; earlier chords in random order), gaps 1-3 ms, without modifier and with lsft / rsft / both shift keys (either press order, every third order) / ralt held (scenarios that hit known finding #18 are sampled: no modifier, every second order), followed by nothing / a foreign letter / a dot / both; then 4-8 random non-chord typings (taps, rolled pairs that are no subset of a chord, shift, punctuation, pauses), one too-slow chord, for every entry that extends another entry: the smaller chord first, the extending keys deadline-5 ms (must extend: an activation restarts the deadline) and deadline+5 ms (must pass through) after it, and every follow-up line with deadline+20 ms between its chords; AFTER-LINE family: every line that has follow-up lines (plus one that has none) is completed and fully released, then (3 ms / 8 ms / deadline+20 ms later) every top-level chord is typed in up to 4 (thorough 12) press orders, sometimes with lsft / rsft / both shifts, with a tail - orders whose keys complete a follow-up chord of the earlier line on the way are skipped (the follow-up is meant), the counter toplevel_chord_part_of_pending_followup_exact counts chords that are a strict part of a pending multi-key follow-up chord (the generator adds such a follow-up to 2 of 5 dictionaries); PARTIAL-RELEASE family: for every pair of top-level chords S < L (the generator extends chords by one or by two keys): S in random order, a random non-empty proper subset of S released, then the released keys and the keys of L-S in random order (6 draws per pair, thorough 16), all within the deadline, sometimes with lsft / rsft / both shifts, with a tail; classified by what is completed on the way (direct / via another chord / S a second time / >=3 completions with shared first character); FOLLOW-UP-AFTER-TYPING family: every line that has follow-up lines is completed and fully released, then one of {lone tap of a key that is a strict part of a top-level chord (held 2 / 5 / deadline+10 ms), tap of a key that is in no chord, 2-4 such taps, space, one of . , ;, a rolled pair that is in no chord, a different top-level chord typed on its own} follows, then a pause of idle-reactivate-time+20 ms (3 of 4) or 6 ms, then the keys of a follow-up chord of the line (up to 3 follow-up chords per line, thorough 6; random order) - expected: earlier expansion + what was typed + the keys as plain typing (or, after the idle time, their own top-level expansion if they are exactly a top-level chord); follow-up chords whose keys complete other top-level nodes on the way are skipped. With shift held the text is compared exactly (first character capitalised, rest as configured) in all families, see assumptions. Non-trivial = entry scenario replayed through the text-buffer model; distinct = (shape, depth, chord size, modifier, tail, smart-space).".into()
     }
     fn assumptions(&self) -> Vec<String> {
         vec![
             "the application is a plain text field: a press of a printable key appends one character (upper case iff a shift key is down at that moment, marked if AltGr is down), backspace deletes one character, releases do nothing".into(),
-            "with shift held the first output character is capitalised by design, so those scenarios are compared case-insensitively and additionally require the shift key to be down again afterwards".into(),
+            "with shift held (lsft, rsft or both) the first character of the expansion is typed under the user's shift and every held shift key is lifted for the rest, so the expected text is the expansion with its first character capitalised, everything else exactly as configured (text typed after the shift keys were released in lower case); additionally exactly the held shift keys must be down at the OS again before the user releases them".into(),
+            "when the final expansion starts with the same character (ignoring case) as the expansion activated just before it (superset chain, follow-up that shares a prefix), a part of the earlier text may be re-used and neither the statement nor the guide says which character is 'the first'; those shift scenarios, and shift scenarios that touch one of the known structures, are compared ignoring case as before (counter shift_scenarios_case_not_judged)".into(),
+            "follow-up-after-typing family: after anything else was typed (or another chord expanded) a follow-up chord of the earlier line cannot erase 'exactly' the earlier expansion any more, so it is over: the text typed in between must survive unchanged and the follow-up keys are judged as what they are on their own; judged only if those keys on their own complete no top-level node on the way (plain typing) or, after idle-reactivate-time, are exactly one top-level chord; with a pause shorter than idle-reactivate-time only the plain-typing reading is judged (whether zippy counts as 'temporarily disabled' after a short tap is not stated); the lone tapped key is never itself a single-key follow-up chord of the line; smart-space full: a punctuation key typed directly after the expansion removes the automatic space".into(),
             "follow-up scenarios in which a proper subset of the follow-up chord is itself a top-level chord are not judged (the guide does not say which wins)".into(),
             "only letters and spaces as outputs; output-character-mappings (no-erase, single-output) are not generated".into(),
             "chord keys are released before the next chord of a line and before further typing; the only partial releases are those of the partial-release family (one release phase after the first activation, no release between the later presses)".into(),
@@ -1380,6 +1758,21 @@ impl Check for C20Check {
             ("toplevel_chord_part_of_pending_followup_exact", 1_500),
             ("longer_chord_after_partial_release_exact", 8_000),
             ("longer_chord_two_keys_apart_after_partial_release_exact", 3_000),
+            ("entries_with_shift_case_exact", 50_000),
+            ("entries_with_rsft_alone_case_exact", 10_000),
+            ("entries_with_both_shifts_case_exact", 15_000),
+            ("both_shifts_restored", 15_000),
+            ("other_families_with_shift_case_exact", 10_000),
+            ("other_families_with_both_shifts_case_exact", 5_000),
+            ("followup_after_typing_exact", 15_000),
+            ("followup_after_typing_exact:lone-tap-of-chord-part:after-idle", 1_500),
+            ("followup_after_typing_exact:lone-tap-of-chord-part:before-idle", 400),
+            ("followup_after_typing_exact:foreign-key-tap:after-idle", 1_500),
+            ("followup_after_typing_exact:several-taps:after-idle", 1_500),
+            ("followup_after_typing_exact:space:after-idle", 1_500),
+            ("followup_after_typing_exact:punctuation:after-idle", 1_500),
+            ("followup_after_typing_exact:rolled-pair:after-idle", 1_000),
+            ("followup_after_typing_exact:other-chord:after-idle", 800),
         ]
     }
 }
